@@ -22,7 +22,7 @@ def run(tier, seed):
     # (A) model only: RunIndep + Conforms over the small universe (no replay here: C01 does it)
     res = vlib.run_tlc("IngestGen", ic.gen_cfg("quick"), timeout=3000)
     vlib.require_ok(res, "IngestGen")
-    ncases, variants = (120, 6) if tier == "quick" else (1000, 10)
+    ncases, variants = (360, 6) if tier == "quick" else (2400, 10)
     rout, cases, files = ic.real_scale(seed, ncases, variants, 16, prefix="c02", badger=True, cli=True)
     vlib.absorb_replay(v, rout, "ingestrec", cases, crash_sig=ic.crash_sig)
     n_traces = n_events = rej = mine = 0
